@@ -1,5 +1,6 @@
 pub mod c04;
 pub mod c05;
+pub mod c09;
 pub mod c12;
 pub mod c13;
 pub mod c16;
